@@ -177,6 +177,36 @@ pub fn run(a: &Args) {
     }
     std::thread::sleep(Duration::from_millis(200));
 
+    // (1b) gone means gone: some time after the cache was dropped nobody is left to take events
+    // (the sender is told so, or at least no event is handled any more)
+    {
+        use assets_manager::verif_hooks::EVENTS_HANDLED;
+        use std::sync::atomic::Ordering;
+        let mem = Mem::new(true);
+        mem.write("a", "x", b"1");
+        let cache = AssetCache::with_source(mem.clone());
+        cache.load::<TInt>("a").unwrap();
+        cache.hot_reload();
+        drop(cache);
+        std::thread::sleep(Duration::from_millis(300));
+        let before = EVENTS_HANDLED.load(Ordering::SeqCst);
+        let mut accepted = 0;
+        for _ in 0..20 {
+            if mem.send(vec![OwnedDirEntry::File("a".into(), "x".into())]) {
+                accepted += 1;
+            }
+            std::thread::sleep(Duration::from_millis(5));
+        }
+        std::thread::sleep(Duration::from_millis(200));
+        let handled = EVENTS_HANDLED.load(Ordering::SeqCst) - before;
+        evals += 1;
+        samples.push(format!("{{\"kind\": \"events sent 0.3 s after the drop\", \"accepted_by_the_channel\": {accepted}, \"handled_by_a_reloader\": {handled}}}"));
+        if handled > 0 {
+            violations.push(("reloader-alive-after-drop".into(), format!("{handled} of 20 events sent 0.3 s after the cache was dropped were still handled by its reloader thread")));
+        }
+        std::mem::forget(mem);
+    }
+
     // (2) create / use / drop sequences
     let ks: &[usize] = if a.thorough() { &[1, 2, 4, 8] } else { &[1, 3] };
     'outer: for &k in ks {
